@@ -22,7 +22,7 @@ COMPONENTS = {'real': ['ikesa.py', 'ikesacontroller.py (main_loop)', 'xfrm.py', 
               'stub': ['XFRM kernel model (SAD/ledger, errno injection)', 'clock', 'select', 'sockets', 'randomness']}
 ASSUMPTIONS = ['tracked CHILD_SAs are read from the daemon (IkeSaController.ike_sas[*].child_sas), the kernel side from the model '
                'ledger (acknowledged NEWSA minus DELSA/FLUSHSA; DELSA answered ESRCH counts as deleted)']
-EXPECT_REACH = ['invariant_checks_nonempty', 'kern.err', 'byz.bad_reply', 'rekey_ike_handover', 'child_deleted', 'child_rekeyed', 'ike_sa_removed_with_children']
+EXPECT_REACH = ['invariant_checks_nonempty', 'kern.err', 'clock.jump', 'byz.bad_reply', 'rekey_ike_handover', 'child_deleted', 'child_rekeyed', 'ike_sa_removed_with_children']
 
 
 def generate(seed, tier):
@@ -40,6 +40,11 @@ def generate(seed, tier):
         t0 = round(r.uniform(2, T * 0.7), 3)
         sc['ops'].append({'t': t0, 'op': 'crash', 'node': who, 'k': r.randint(0, 6)})
         sc['ops'].append({'t': round(t0 + r.choice([0.5, 3, 15]), 3), 'op': 'restart', 'node': who})
+    if r.random() < 0.15:
+        # the wall clock steps (NTP): backwards delays every timer, forwards fires them all at once
+        for _ in range(r.randint(1, 3)):
+            sc['ops'].append({'t': round(r.uniform(1.5, T), 3), 'op': 'clockjump', 'node': r.choice('AB'),
+                              'delta': r.choice([-1.0, -30.0, -300.0, 2.5, 40.0, 400.0])})
     sc['ops'].sort(key=lambda x: x['t'])
     if r.random() < 0.25:
         # Byzantine peer batch: replies a conforming peer may send but this implementation never does, and defective replies
@@ -98,6 +103,8 @@ def run(scenario):
         if k.startswith('kern.err'):
             reach['kern.err'] = reach.get('kern.err', 0) + v
     reach.update(ctx.get('byz_reach', {}))
+    if w.fault_counts.get('clock.jump'):
+        reach['clock.jump'] = w.fault_counts['clock.jump']
     violations = list(w.violations)
     enum_runs = 0
     if scenario.get('enumerate_kerr') and not violations:
